@@ -10,7 +10,7 @@ def _load(name):
 _c01, _c02 = _load("c01"), _load("c02")
 CHUNK_MIN = 1200   # one generated crate per chunk: keep chunks large
 
-RULE = ("(hardening: texts of 700..2000 characters, 15+ digit coefficients / fraction parts / exponents, exponents 1e-300..1e300, one literal per decade 1e-320..1e308, signed zeros, the largest dense power, 16 univariate and 26 multivariate variable letters, the macros reached through spindalis_macros::, spindalis::polynomials::, spindalis::polynomials::macros:: and forwarded through a declarative macro, invalid texts of every error kind of both runtime parsers alone and inside correct polynomials, every rejected invocation between two correct ones on adjacent lines; every white-space character of the Rust tokenizer that is also White_Space - U+0009..U+000D, U+0020, U+0085, U+2028, U+2029 - as a raw character in the SOURCE of the invocation, between terms, inside a term, inside a number, around '^' and '/', leading and trailing, alone, in mixtures and runs, and sprinkled over 300..700-character texts, while the runtime parser reads the same source text; U+200E / U+200F only as the corpus lines of the open finding F-C20-lrm) macro invocations of both polynomial macros on grammar texts of 5..600 characters (ASCII white space incl. line breaks, "
+RULE = ("(round 5: all-zero and cancelling results at every size - zero written as a coefficient [0 x^N, 0.0x^N, -0 x^N] and terms that cancel [x^N - x^N, p - p, x^N + x^N - 2x^N] at every degree 0..40 and at 65, 129, 257, 513, 1023, 1024, 1025, 1500, 4096, 65536, and results with a single non-zero coefficient at the top / the bottom / next to the top at the same degrees, for both macros incl. two-variable cancellations; macro vs runtime compared field for field, vector LENGTH included) (hardening: texts of 700..2000 characters, 15+ digit coefficients / fraction parts / exponents, exponents 1e-300..1e300, one literal per decade 1e-320..1e308, signed zeros, the largest dense power, 16 univariate and 26 multivariate variable letters, the macros reached through spindalis_macros::, spindalis::polynomials::, spindalis::polynomials::macros:: and forwarded through a declarative macro, invalid texts of every error kind of both runtime parsers alone and inside correct polynomials, every rejected invocation between two correct ones on adjacent lines; every white-space character of the Rust tokenizer that is also White_Space - U+0009..U+000D, U+0020, U+0085, U+2028, U+2029 - as a raw character in the SOURCE of the invocation, between terms, inside a term, inside a number, around '^' and '/', leading and trailing, alone, in mixtures and runs, and sprinkled over 300..700-character texts, while the runtime parser reads the same source text; U+200E / U+200F only as the corpus lines of the open finding F-C20-lrm) macro invocations of both polynomial macros on grammar texts of 5..600 characters (ASCII white space incl. line breaks, "
         "all coefficient spellings incl. 17-digit decimals, fractions, negative and fractional exponents, non-ASCII variable "
         "letters) compiled into a generated crate and run; plus ungrammatical texts that tokenize, checked for a compile error at "
         "their own line. Non-trivial = an invocation whose text the model accepts and that is longer than 30 characters (so the "
